@@ -13,7 +13,7 @@
 From Coq Require Import String Ascii List Bool ZArith NArith Lia.
 From NRI Require Import Model.Proto Proofs.ProtoWireProofs Model.Schema.
 Import ListNotations.
-Open Scope N_scope.
+Local Open Scope N_scope.
 
 (* ------------------------------------------------------------------ induction on values *)
 Section ValueInd.
